@@ -251,8 +251,8 @@ def shards(tier, seed):
             items.append({"what": "alpha", "len": L, "part": 0, "parts": 1})
         for p in range(32):
             items.append({"what": "alpha", "len": 5, "part": p, "parts": 32})
-        for p in range(256):
-            items.append({"what": "alpha", "len": 6, "part": p, "parts": 256})
+        for p in range(0, 256, 8):      # length 6: a fixed eighth of the enumeration (the whole of it costs ~1 h here; C02/C07 run it in full)
+            items.append({"what": "alpha", "len": 6, "part": p, "parts": 256, "sample": "1/8"})
         for i in range(32):
             items.append({"what": "prog", "n": 1500, "len": 14 if i % 2 else 28, "max": 400, "seed": seed * 1000 + i})
         for i in range(16):
@@ -267,7 +267,10 @@ def run_shard(item, stats):
     w = item["what"]
     if w == "alpha":
         core.run_cases(alpha_cases(item["len"], item["part"], item["parts"]), check, stats, km, distinct=True)
-        stats.exhaustive_parts.append(f"all {len(c02.ALPHABET)}^{item['len']} alphabet sequences of length {item['len']}")
+        if item.get("sample"):
+            stats.notes.append(f"alphabet sequences of length {item['len']}: a fixed {item['sample']} of the enumeration (every 8th of {item['parts']} parts)")
+        else:
+            stats.exhaustive_parts.append(f"all {len(c02.ALPHABET)}^{item['len']} alphabet sequences of length {item['len']}")
     elif w == "reuse":
         core.hyp_search(reuse_case(), check, stats, item["n"], item["seed"], km)
     elif w == "prog":
